@@ -71,6 +71,8 @@ func generatePerSchema(data *Data) error {
 		return err
 	}
 
+	addDirectives(data, &builds)
+
 	for filename, build := range builds {
 		if filename == "" {
 			continue
@@ -190,6 +192,21 @@ func addInterfaces(data *Data, builds *map[string]*Data) error {
 		build.Interfaces[k] = inf
 	}
 	return nil
+}
+
+// addDirectives makes sure that a schema file which holds nothing but directive definitions
+// still gets its generated file: the directive middleware (_fieldMiddleware, _queryMiddleware,
+// ...) is rendered with the file that defines the directives.
+func addDirectives(data *Data, builds *map[string]*Data) {
+	for _, d := range data.AllDirectives {
+		if d.SkipRuntime || d.Position == nil || d.Position.Src == nil || d.Position.Src.BuiltIn {
+			continue
+		}
+		filename := filename(d.Position, data.Config)
+		if (*builds)[filename] == nil {
+			addBuild(filename, d.Position, data, builds)
+		}
+	}
 }
 
 func addReferencedTypes(data *Data, builds *map[string]*Data) error {
